@@ -27,7 +27,8 @@ Definition judge (c : case) : list verdict :=
    [ clause "C17_new_within_partition" (p_new_within_partition d d');
      clause "C17_old_not_below_reserve" (p_old_not_below_reserve d d');
      clause "C17_total_within_surge" (p_total_within_surge d d');
-     clause "C17_availability_budget" (p_availability_budget d d') ]).
+     clause "C17_availability_budget" (p_availability_budget d d');
+     clause "C17_progress_at_full_partition" (p_progress_at_full_partition d d') ]).
 
 Definition tag (c : case) : string :=
   let '(d, o) := c in
